@@ -17,6 +17,8 @@ enum Outcome { O_OK = 0, O_NA_GEN2 = 1, O_NA_NONE = 2, O_FAIL = 3, O_ERR_NA = 4,
 static const char *kOutName[] = {"OK", "NA", "NA0", "FAIL", "ERR", "ERRok", "ERRfail", "silent"};
 static const int kMaxRules = 256;
 static int g_outcome[kMaxRules];
+static bool g_msg[kMaxRules];   // the rule attaches a heap-allocated status message to the verdict it writes
+static bool g_useClone = false; // verify a clone of the first policy (taken after the fallbacks were attached) instead of the policy itself
 static std::vector<int> g_trace;
 static char g_names[kMaxRules][12];
 static const KSI_VerificationErrorCode kFailCodes[] = {KSI_VER_ERR_INT_1, KSI_VER_ERR_PUB_1, KSI_VER_ERR_KEY_2, KSI_VER_ERR_CAL_1, KSI_VER_ERR_GEN_1};
@@ -24,7 +26,7 @@ static KSI_VerificationErrorCode failCode(int i) { return kFailCodes[i % 5]; }
 static int errCode(int i) { static const int e[] = {KSI_OUT_OF_MEMORY, KSI_INVALID_ARGUMENT, KSI_NETWORK_ERROR, KSI_INVALID_FORMAT}; return e[i % 4]; }
 
 template <int I> static int ruleFn(KSI_VerificationContext *, KSI_RuleVerificationResult *r) {
-    g_trace.push_back(I); r->ruleName = g_names[I];
+    g_trace.push_back(I); r->ruleName = g_names[I]; if (g_msg[I] && g_outcome[I] != O_SILENT) { r->status = 7; size_t ml = strlen(g_names[I]) + 1; r->statusMessage = (char *)KSI_malloc(ml); if (r->statusMessage) memcpy(r->statusMessage, g_names[I], ml); }
     switch (g_outcome[I]) {
     case O_OK: r->resultCode = KSI_VER_RES_OK; r->errorCode = KSI_VER_ERR_NONE; return KSI_OK;
     case O_NA_GEN2: r->resultCode = KSI_VER_RES_NA; r->errorCode = KSI_VER_ERR_GEN_2; return KSI_OK;
@@ -109,7 +111,8 @@ static void runChain(Case &c, const std::vector<PolicyModel> &chain) {
     }
     // SDK
     g_trace.clear(); KSI_VerificationContext vc; KSI_VerificationContext_init(&vc, ctx);
-    KSI_PolicyVerificationResult *res = nullptr; int rc = KSI_SignatureVerifier_verify(pols[0], &vc, &res);
+    KSI_Policy *cl = nullptr; if (g_useClone) { if (KSI_Policy_clone(ctx, pols[0], &cl) != KSI_OK || !cl) { VF_FAIL(c, "C05:policy-clone-failed", "KSI_Policy_clone failed"); for (auto p : pols) KSI_Policy_free(p); return; } c.cls(chain.size() > 1 ? "clone-of-policy-with-fallback" : "clone-of-policy"); }
+    KSI_PolicyVerificationResult *res = nullptr; int rc = KSI_SignatureVerifier_verify(cl ? cl : pols[0], &vc, &res);
     std::string d = c.desc;
     auto traceStr = [](const std::vector<int> &t) { std::string s; for (int x : t) s += num(x) + " "; return s; };
     if (g_trace != wantTrace) {
@@ -127,13 +130,14 @@ static void runChain(Case &c, const std::vector<PolicyModel> &chain) {
         else if (res->finalResult.resultCode != rcs[ev.rc]) VF_FAIL(c, ev.rc == 2 ? "C05:verdict:fail-masked" : "C05:verdict:result-differs", "final resultCode " + num(res->finalResult.resultCode) + " want " + num(rcs[ev.rc]) + " for " + d);
         else if ((int)res->finalResult.errorCode != ev.errorCode) VF_FAIL(c, "C05:verdict:errorcode-differs", "final errorCode " + num(res->finalResult.errorCode) + " want " + num(ev.errorCode) + " for " + d);
         else if (!res->finalResult.ruleName || strcmp(res->finalResult.ruleName, g_names[ev.lastRule])) VF_FAIL(c, "C05:verdict:not-last-rule", std::string("reported rule ") + (res->finalResult.ruleName ? res->finalResult.ruleName : "(null)") + " is not the last rule evaluated (" + g_names[ev.lastRule] + ") for " + d);
+        else if (g_msg[ev.lastRule] && g_outcome[ev.lastRule] != O_SILENT ? (!res->finalResult.statusMessage || strcmp(res->finalResult.statusMessage, g_names[ev.lastRule])) : res->finalResult.statusMessage != nullptr) VF_FAIL(c, "C05:verdict:status-message-not-of-last-rule", std::string("status message of the reported result is ") + (res->finalResult.statusMessage ? res->finalResult.statusMessage : "(null)") + ", the last rule evaluated (" + g_names[ev.lastRule] + ") " + (g_msg[ev.lastRule] ? "attached its own name" : "attached none") + " for " + d);
         else if (res->resultCode != rcs[ev.rc]) VF_FAIL(c, "C05:verdict:result-differs", "policy resultCode field differs from final result");
         else if (KSI_RuleVerificationResultList_length(res->policyResults) != evaluated) VF_FAIL(c, "C05:fallback:policy-count", "policyResults has " + num((long long)KSI_RuleVerificationResultList_length(res->policyResults)) + " entries, " + num((long long)evaluated) + " policies were to be evaluated");
         else if (!res->finalResult.policyName || strcmp(res->finalResult.policyName, pnames[evaluated - 1])) VF_FAIL(c, "C05:fallback:not-last-policy", "final verdict is not that of the last policy evaluated");
         else for (size_t i = 0; i < evaluated; i++) { KSI_RuleVerificationResult *pr = nullptr; KSI_RuleVerificationResultList_elementAt(res->policyResults, i, &pr);
             if (!pr || pr->resultCode != rcs[perPolicy[i].rc] || (int)pr->errorCode != perPolicy[i].errorCode) { VF_FAIL(c, "C05:fallback:policy-result-differs", "result recorded for policy " + num((long long)i) + " differs from the reference"); break; } }
     }
-    KSI_PolicyVerificationResult_free(res); KSI_VerificationContext_clean(&vc);
+    KSI_PolicyVerificationResult_free(res); KSI_VerificationContext_clean(&vc); KSI_Policy_free(cl);
     for (auto p : pols) KSI_Policy_free(p);
     c.cls(ev.error ? "end:error" : (ev.rc == 0 ? "end:OK" : ev.rc == 1 ? "end:NA" : "end:FAIL"));
     c.cls("policies-evaluated:" + num((long long)evaluated));
@@ -156,6 +160,7 @@ void harness_case(Dec &d, Case &c) {
     for (unsigned i = 0; i < np; i++) { PolicyModel pm; pm.rules = genList(d, 0, nextId, 40 * (int)(i + 1) < kMaxRules ? 40 * (int)(i + 1) : kMaxRules - 1); chain.push_back(pm); }
     // outcomes: biased so that deep evaluation happens (mostly OK / NA), sometimes FAIL / error
     for (int i = 0; i < nextId && i < kMaxRules; i++) { unsigned r = d.pick(16); g_outcome[i] = r < 7 ? O_OK : r == 9 ? O_SILENT : r < 10 ? O_NA_GEN2 : r < 12 ? O_NA_NONE : r < 14 ? O_FAIL : r == 14 ? O_ERR_NA : (d.flag() ? O_ERR_OK : O_ERR_FAIL); }
+    for (int i = 0; i < nextId && i < kMaxRules; i++) { g_msg[i] = d.pick(4) == 0; if (g_msg[i]) c.cls("rule-with-status-message"); } g_useClone = d.pick(3) == 0;
     std::string s; int comp = 0, nonOk = 0, maxd = 0;
     for (auto &p : chain) { s += "{" + show(p.rules) + "}"; comp += countType(p.rules, true); int dd = depthOf(p.rules); if (dd > maxd) maxd = dd; }
     for (int i = 0; i < nextId; i++) if (g_outcome[i] != O_OK) nonOk++;
@@ -176,7 +181,7 @@ void harness_exh_case(const uint8_t *enc, size_t n, Case &c) {
     const uint8_t *p = enc, *end = enc + n; std::vector<PolicyModel> chain; int nextId = 0;
     while (p < end) { unsigned k = *p++; if (k == 0xfe) break; PolicyModel pm; if (!k || !decodeList(p, end, k, pm.rules, nextId)) { c.skip("bad encoding"); return; } chain.push_back(pm); }
     if (chain.empty() || nextId >= kMaxRules) { c.skip("bad encoding"); return; }
-    for (int i = 0; i < nextId; i++) g_outcome[i] = (p < end) ? (*p++ % O_COUNT) : O_OK;
+    for (int i = 0; i < nextId; i++) { g_outcome[i] = (p < end) ? (*p++ % O_COUNT) : O_OK; g_msg[i] = (i & 1) != 0; } g_useClone = p < end && (*p++ & 1); // odd-numbered rules attach a message; an optional trailing octet selects the clone
     std::string s; int comp = 0, nonOk = 0; for (auto &pm : chain) { s += "{" + show(pm.rules) + "}"; comp += countType(pm.rules, true); }
     for (int i = 0; i < nextId; i++) if (g_outcome[i] != O_OK) nonOk++;
     c.desc = s; c.nontrivial = (comp >= 1 || chain.size() >= 2) && nonOk >= 1;
@@ -210,7 +215,7 @@ void harness_exhaustive(int shard, int nshards) {
     // all fallback chains of 1..4 single-rule policies x 5 outcomes
     uint64_t chains = 0;
     for (int np = 1; np <= 4 && !stop; np++) { uint64_t total = 1; for (int i = 0; i < np; i++) total *= 6;
-        for (uint64_t a = 0; a < total && !stop; a++) { chains++; if ((int)(chains % (uint64_t)nshards) != shard) continue; Bytes enc; for (int i = 0; i < np; i++) { enc.push_back(1); enc.push_back(0); } enc.push_back(0xfe); uint64_t v = a; for (int i = 0; i < np; i++) { enc.push_back((uint8_t)five[v % 6]); v /= 6; } if (vf::runExh(enc)) stop = true; } }
-    if (shard == 0) { vf::stats().exhaustive[tier() ? "rule trees: <=4 basic rules depth<=3, 5 basic rules depth<=2 (trees)" : "rule trees: <=3 basic rules depth<=3, 4 basic rules depth<=2 (trees)"] = trees; vf::stats().exhaustive["fallback chains of 0..3 fallbacks of single-rule policies x 6 outcomes"] = chains; }
+        for (uint64_t a = 0; a < total && !stop; a++) { chains++; if ((int)(chains % (uint64_t)nshards) != shard) continue; Bytes enc; for (int i = 0; i < np; i++) { enc.push_back(1); enc.push_back(0); } enc.push_back(0xfe); uint64_t v = a; for (int i = 0; i < np; i++) { enc.push_back((uint8_t)five[v % 6]); v /= 6; } if (vf::runExh(enc)) stop = true; enc.push_back(1); if (!stop && vf::runExh(enc)) stop = true; } }
+    if (shard == 0) { vf::stats().exhaustive[tier() ? "rule trees: <=4 basic rules depth<=3, 5 basic rules depth<=2 (trees)" : "rule trees: <=3 basic rules depth<=3, 4 basic rules depth<=2 (trees)"] = trees; vf::stats().exhaustive["fallback chains of 0..3 fallbacks of single-rule policies x 6 outcomes x {policy, clone of the policy}"] = chains; }
     vf::stats().exhaustive["tree x outcome-assignment evaluations"] += evals;
 }
